@@ -562,6 +562,7 @@ def _ac_types_in_constructor(order):
 
 
 FAULTS = [
+    ("name-BT never adds the per-bloc profiles up", [(BGP, "        # combine the profiles\n        pp = PreferenceProfile()\n        for profile in pp_by_bloc.values():\n            pp += profile\n\n        if by_bloc:\n            return (pp_by_bloc, pp)\n\n        # else return the combined profiles\n        else:\n            return pp\n\n    def _BT_mcmc(", "        # combine the profiles\n        pp = PreferenceProfile()\n        for profile in pp_by_bloc.values():\n            pass\n\n        if by_bloc:\n            return (pp_by_bloc, pp)\n\n        # else return the combined profiles\n        else:\n            return pp\n\n    def _BT_mcmc(")], "C14.G4"),
     ("bloc loop variable read after its loop", [(BGP, "        # dictionary to store preference profiles by bloc\n        pp_by_bloc = {b: PreferenceProfile() for b in self.blocs}\n\n        for bloc in self.blocs:\n            # number of voters in this bloc\n            num_ballots = ballots_per_block[bloc]\n            ballot_pool = [Ballot()] * num_ballots\n            non_zero_cands",
                                                 "        # dictionary to store preference profiles by bloc\n        pp_by_bloc = {b: PreferenceProfile() for b in self.blocs}\n        for b0 in self.blocs:\n            pass\n        leaked = self.bloc_voter_prop[b0]\n\n        for bloc in self.blocs:\n            # number of voters in this bloc\n            num_ballots = ballots_per_block[bloc]\n            ballot_pool = [Ballot()] * num_ballots\n            non_zero_cands")], "C14.G5"),
     ("AC voter types fixed by the constructor in the other order than the shares (seeded C16-r2-1)", _ac_types_in_constructor(["cross", "bloc"]), "C14.G1"),
